@@ -138,10 +138,14 @@ type c09Call struct {
 func c09Source(cfg c09Config, i int) (string, []c09Call) {
 	var sb strings.Builder
 	var calls []c09Call
-	for k := 0; k <= i; k++ {
-		fmt.Fprintf(&sb, "# script %d header line %d\n", i, k)
-	}
 	s := cfg.Scripts[i]
+	// broken scripts without calls have byte-identical texts (two members of
+	// a set may be copies of each other); all others differ in their headers
+	if !(s.Kind != 0 && len(s.Calls) == 0) {
+		for k := 0; k <= i; k++ {
+			fmt.Fprintf(&sb, "# script %d header line %d\n", i, k)
+		}
+	}
 	for j, t := range s.Calls {
 		sb.WriteString(strings.Repeat(" ", 1+2*i+5*j))
 		name := "missing.p"
@@ -175,7 +179,11 @@ func c09Source(cfg c09Config, i int) (string, []c09Call) {
 	case 2:
 		sb.WriteString("   nosuch_function()\n")
 	}
-	fmt.Fprintf(&sb, "y = %d\n", i)
+	if s.Kind != 0 && len(s.Calls) == 0 {
+		sb.WriteString("y = 0\n")
+	} else {
+		fmt.Fprintf(&sb, "y = %d\n", i)
+	}
 	return sb.String(), calls
 }
 
@@ -343,7 +351,23 @@ func (k c09) Run(c *mon.Ctx, workload string, i int64) {
 					return false
 				}
 				c.Count("use_sites_checked", sites)
-			} else if cfg.Scripts[s].Kind == 0 {
+			} else if cfg.Scripts[s].Kind != 0 {
+				// a script rejected for its own text: the error is positioned in
+				// THAT script (also when another member has the same text)
+				pe, isPl := errs[name].(*errchain.PlError)
+				if !isPl || len(pe.PosChain) == 0 {
+					c.Violate("bad-error-chain", fmt.Sprintf("%s order %v: error of the broken script %s is %T %v\n%s", how, order, name, errs[name], errs[name], cfg), info)
+					return false
+				}
+				if pe.PosChain[0].File != name {
+					c.Violate("bad-error-chain", fmt.Sprintf("%s order %v: the error of the broken script %s starts in %q: %q\nconfiguration: %s\n%s", how, order, name, pe.PosChain[0].File, pe.Error(), cfg, srcDump(srcs)), info)
+					return false
+				}
+				if d := drive.CheckPosition(pe.PosChain[0], name, srcs[name]); d != "" {
+					c.Violate("bad-error-chain", fmt.Sprintf("%s order %v: error of the broken script %s: %s\n  error: %q\n%s", how, order, name, d, pe.Error(), cfg), info)
+					return false
+				}
+			} else {
 				if d := k.checkChain(cfg, names, calls, s, errs[name]); d != "" {
 					c.Violate("bad-error-chain", fmt.Sprintf("%s order %v: error of %s: %s\n  error: %q\nconfiguration: %s\n%s", how, order, name, d, errs[name].Error(), cfg, srcDump(srcs)), info)
 					return false
